@@ -27,17 +27,6 @@ Open Scope list_scope.
 (* --------------------------------------------------------------------------------------- *)
 (* inputs *)
 
-Inductive rawdoc := RawNone | RawEmpty | RawText.      (* func.__doc__ is None / == '' / anything else *)
-
-Record dtype := { dt_text : string; dt_expr : texpr }.
-
-Definition dparam := (string * option dtype)%type.      (* arg_name, type_name *)
-
-Record docT := {
-  d_raw : rawdoc;
-  d_params : list dparam;                  (* docstring.params, in docstring order *)
-  d_returns : option (list dtype) }.       (* None: no Returns section; Some l: returns.args = 'returns' :: l *)
-
 Record fcase := {
   f_require : bool;                        (* require_docstring *)
   f_parser : bool;                         (* docstring_parser importable: decorated_func.docstring is not None *)
@@ -192,14 +181,6 @@ Section Interp.
     | BNot a => bind (eval_bx s a) (fun x => Ok (negb x))
     | BAnd a b => bind (eval_bx s a) (fun x => if x then eval_bx s b else Ok false)
     | BOr a b => bind (eval_bx s a) (fun x => if x then Ok true else eval_bx s b)
-    end.
-
-  (* 'needle' in text *)
-  Fixpoint contains (needle text : string) : bool :=
-    String.prefix needle text ||
-    match text with
-    | EmptyString => false
-    | String _ rest => contains needle rest
     end.
 
   (* _parse_documented_type(type_, context, err) *)
